@@ -122,6 +122,10 @@ def main():
         sh(["git", "-C", "/repo", "worktree", "remove", "--force", WT])
         shutil.rmtree(WT, ignore_errors=True)
     n = os.path.basename(src.rstrip("/"))
+    wave = re.match(r"mut(\d+)_", os.path.basename(os.path.dirname(
+        src.rstrip("/"))))
+    if wave:
+        n = "w%s-%s" % (wave.group(1), n)
     dest = os.path.join(VERIF, "seeded", "%s-%s" % (prop, n))
     if result.get("confirmed"):
         os.makedirs(dest, exist_ok=True)
